@@ -17,6 +17,8 @@ claimed = {
          "bounds in evidence (lists <=3 elements of <=1-2 bytes, delimiters 1..3 bytes); concurrent evaluation outside; the one-element list [\"\"] excluded (encoding ambiguity)"),
  "C08": ("Real kf* constructors and stages of every helper in stdlib.StandardFunctions that is not a thin wrapper over an opaque library, real KeyBuilder.Compile/BuildKey/optimize/splitTokenizedArguments and the context types, executed on symbolic templates and symbolic argument values (int64 renderings, arbitrary bytes, float renderings); every implicit run-time check (index, slice bounds, nil, divide, library panics of strings.Repeat) is a solver query; a panic on any path is a violation.",
          "bounds in evidence (arity <=2/3, templates <=4/5 bytes over a 12-byte alphabet, unrolling 6/8); memory/time exhaustion and the 11 library-backed helpers outside; float arithmetic abstracted (over-approximation)"),
+ "C09": ("Real KeyBuilder.Compile/BuildKey/optimize and splitTokenizedArguments executed on symbolic text: escaped rendering of any string evaluates to the string; the splitter equals the documented splitting (reference tokenizer in the harness); trees printed with symbolic literals, blank runs and quoting evaluate as the tree dictates; unterminated/empty statements and unknown functions are reported exactly.",
+         "bounds in evidence (strings <=4/5 characters over all ASCII bytes + one 2-byte rune, splitter inputs <=6/7 bytes, trees of depth 1/2); invalid UTF-8 and escapes inside statements outside"),
 }
 man = {
  "version": 1,
